@@ -218,6 +218,18 @@ func c20Decode(c *core.Ctx, o *c20Obs) {
 		}
 		h.Write(in)
 	}
+	// valid but non-canonical encodings of known values (field order, repeated
+	// scalars, explicit defaults, map entries without key or value or with the
+	// value first, repeated map keys, an embedded stat split in two): every
+	// decoder must produce the value the bytes encode
+	for i := 0; i < n/2; i++ {
+		gopt := codec.GenOpt{NoUnknown: true, MaxBig: 600, NoInvalidUTF8: i%4 != 0}
+		if i%2 == 0 {
+			codec.CheckNoncanon(o, r, false, codec.GenStat(r, gopt), nil)
+		} else {
+			codec.CheckNoncanon(o, r, true, nil, codec.GenPacket(r, gopt))
+		}
+	}
 	o.Nontrivial = acc > 0 && rej > 0
 	o.FP = fmt.Sprintf("decode:%x", h.Sum64())
 	o.Sample = map[string]any{"family": "decode", "inputs": 2 * n, "accepted": acc, "rejected": rej}
@@ -343,6 +355,7 @@ func init() {
 			"values: 120 generated Stat + 120 generated Packet values (empty, extreme and negative ints, unknown enum values, valid and non-UTF-8 names, xattr maps with nil/empty/70 KB values and up to 300 entries, payloads around and above 32 KiB, well-formed unknown fields) and one mutant of each; every value goes vt->vt, vt->generic runtime, generic->vt, through the Marshal/Unmarshal/MarshalTo*/Size/Clone entry points, and is compared with the harness's own field-wise comparator (EqualVT and proto.Equal must agree with it, and must tell a value from its mutant). " +
 			"framing: a sequence of 1-28 packets (protocol-shaped, generated, empty, encodings of exactly 32 KiB-2..+2, payloads up to 300 KiB) is written with SendMsg, the bytes are checked by a reference frame parser and a generic-runtime decoder, then read back with RecvMsg through 5-6 readers (whole, 1-byte, random chunks, fixed chunk, (0,nil) reads, data together with EOF; fresh packets or one packet ResetVT between calls); every slice RecvMsg handed to Read is overwritten with 0xFF after the call and all packets are compared again then and at the end of the stream; then io.EOF; 8 cuts per stream (boundary / inside header / inside body, plain EOF or injected read error). " +
 			"decode: 800 byte strings (random, tag soup, mutated/truncated/spliced valid encodings, huge length varints, nesting to depth 50000, repeated fields, odd map entries, up to 300 KB) into Stat.Unmarshal and Packet.Unmarshal with panic capture and a TotalAlloc delta per call; accepted inputs must re-encode and decode (vt) to the same value. " +
+			"decode also: 200 valid but non-canonical encodings per case of generated values (fields in any order, scalars written twice - the last counts -, defaults written explicitly, map entries without key or value or value-first, repeated map keys, an embedded stat split over two occurrences), built by the harness's own encoder so that the encoded value is known; Unmarshal, UnmarshalVT and the generic runtime must all return it. " +
 			"streams: 150 arbitrary frame streams (valid, arbitrary and empty bodies; clean end, partial header, or a last frame announcing up to 16 MiB with 0-199 bytes present) into RecvMsg, compared call by call with the reference (split at the big-endian length, decode the body), allocation per call bounded by the bytes the reader supplied; case 7 additionally runs a 256 MiB announcement in-process and case 15 a 4 GiB announcement in a sub-process limited to 3 GiB of address space. " +
 			"non-trivial: values = a Stat with xattrs and a Packet with a payload over 32 KiB completed all three round trips; framing = at least 3 readers returned the whole sequence and it had a non-empty packet; decode = at least one input accepted and one rejected; streams = at least one arbitrary frame decoded and one incomplete frame rejected. distinct by hash of the generated values / stream and readers / inputs",
 		Assumptions: []string{
